@@ -403,13 +403,13 @@ Print Assumptions C07_table_queries_equal_brute_force.
 (* DataSelection::Sort: the key sequence is the sorted permutation of the keys (lexicographic column compare) *)
 Theorem C07_selection_sort_is_sorted_permutation :
   forall n ks, Forall (fun x => length x = n) ks -> Permutation (sort_keys ks) ks /\ ksorted (sort_keys ks).
-Proof. exact (fun n ks H => conj (sort_keys_perm ks) (sort_keys_sorted n ks H)). Qed.
+Proof. exact sort_is_sorted_permutation. Qed.
 Print Assumptions C07_selection_sort_is_sorted_permutation.
 
 (* std::upper_bound's halving loop returns the partition point of any partitioned range ... *)
 Theorem C07_upper_bound_bisection_correct :
   forall (p : list Z -> bool) d l k, partitioned p d l k -> ub_bisect (S (length l)) p d l 0 (length l) = k.
-Proof. exact (fun p d l k => ub_bisect_partition_point p d l k). Qed.
+Proof. exact ub_bisect_partition_point. Qed.
 Print Assumptions C07_upper_bound_bisection_correct.
 
 (* ... so on a sorted selection GetLowerBound / GetUpperBound (pvBinarySearch's two predicates) are the number of keys
@@ -419,10 +419,7 @@ Theorem C07_selection_bounds_are_equal_range :
   ub_bisect (S (length ks)) (lower_pred k) [] ks 0 (length ks) = lower_bound_count ks k /\
   ub_bisect (S (length ks)) (upper_pred k) [] ks 0 (length ks) = upper_bound_count ks k /\
   upper_bound_count ks k = lower_bound_count ks k + length (filter (fun x => zlist_eqb x k) ks).
-Proof.
-  exact (fun n ks k HL Lk Hs => conj (lower_bound_is_count n ks k HL Lk Hs)
-           (conj (upper_bound_is_count n ks k HL Lk Hs) (proj2 (bounds_delimit_equal_keys n ks k HL Lk)))).
-Qed.
+Proof. exact bounds_are_equal_range. Qed.
 Print Assumptions C07_selection_bounds_are_equal_range.
 
 (* C07_conflict_row_is_witness THROUGH the L1 model: on an index state consistent with the table rows (L0 rows = map ct rs,
@@ -553,6 +550,37 @@ Theorem C07_selection_group_guard_refuted :
   exists h s, StronglySorted (hle h) s /\ ~ grp (S (length s)) (concat (map group_func3 (runs h s))).
 Proof. exact group_guard_refuted. Qed.
 Print Assumptions C07_selection_group_guard_refuted.
+
+(* ---------------------------------------------------------------- review-fix round
+
+   The Thrown branch of the two refusal-agreement theorems above is `True`: a throw needs an injected failure - with the empty
+   failure schedule none of the two-phase operations throws (and RemoveRaw accepts); what a throw leaves behind is the subject
+   of C07_two_phase_atomic_* / C07_generated_sequences_atomic *)
+Theorem C07_no_failure_no_throw :
+  forall fixu fixm ord R ct s,
+  (forall raw, snd (add_raw ord R ct None s raw) <> Thrown) /\
+  (forall old new, snd (update_raw fixu fixm ord R ct None s old new) <> Thrown) /\
+  (forall raw c v, snd (fst (update_col fixu fixm ord R ct None s raw c v)) <> Thrown) /\
+  (forall raw, snd (remove_raw fixu fixm R ct None s raw) = Accepted).
+Proof. exact no_failure_no_throw. Qed.
+Print Assumptions C07_no_failure_no_throw.
+
+(* what is proved about the cxx2coq translation of SegmentedArraySettings<sqrt,6> (Gen_Segments.v; seg_size k =
+   GetItemCount k, seg_item_indexes n = GetSegItemIndexes n, both regenerated on every run; Gen_Log2 is only their Log2 callee):
+   for every array below max_vals the item index is 0 exactly at the cumulative segment boundaries and the segment index is
+   then the number of completed segments; every segment size up to index 4097 is a positive multiple of 64 *)
+Theorem C07_generated_segment_boundaries :
+  forall n, 0 < n -> n < max_vals -> n mod 64 = 0 ->
+  (snd (seg_item_indexes n) = 0 ->
+     exists j, j < 200 /\ n = spanr seg_size 0 64 j /\ fst (seg_item_indexes n) = S j) /\
+  (forall j, n = spanr seg_size 0 64 j -> snd (seg_item_indexes n) = 0).
+Proof. exact boundary_test. Qed.
+Print Assumptions C07_generated_segment_boundaries.
+
+Theorem C07_generated_segment_sizes :
+  forall k, k <= 4097 -> 64 <= seg_size k /\ exists q, seg_size k = 64 * q.
+Proof. exact size_facts. Qed.
+Print Assumptions C07_generated_segment_sizes.
 
 (* ---------------------------------------------------------------- round 8: generated call sequences, index selection, pvFill *)
 From C07 Require Gen_Protocol.
